@@ -24,7 +24,7 @@ from ..util import digest, short, stream
 
 ID = "C04"
 PRELOAD = ["sqllineage.runner", "sim.props.c04"]
-BUDGET_S = {"quick": 150.0, "thorough": 1500.0}
+BUDGET_S = {"quick": 240.0, "thorough": 1500.0}
 
 DESCRIPTION = {
     "rule": (
